@@ -277,6 +277,10 @@ def paths(fnode, max_paths=64, stop_at_raise=True):
                         if pred is not None:
                             env[st.name] = ast.Lambda(args=a, body=pred)
                 continue
+            if isinstance(st, ast.AnnAssign) and isinstance(st.target, ast.Name) and st.value is not None:
+                st = ast.Assign(targets=[st.target], value=st.value, lineno=st.lineno, col_offset=0)      # `x: T = v` binds like `x = v`
+            elif isinstance(st, ast.AnnAssign):
+                continue
             if isinstance(st, ast.Assign) and len(st.targets) == 1 and isinstance(st.targets[0], ast.Name):
                 nm = st.targets[0].id
                 v = st.value
